@@ -13,3 +13,9 @@ pub(crate) mod c38 {
     use super::super::*;
     include!(concat!(env!("LIBP2P_VERIF"), "/units/C38/closest.rs"));
 }
+
+// re-export for units mounted outside `kbucket` (the `key` module is private to it)
+pub(crate) mod c41 {
+    #[allow(unused_imports)]
+    pub(crate) use super::super::key::verif::c41::key_with_bytes;
+}
